@@ -479,7 +479,10 @@ func (t *tOps) remove(fd storage.FileDesc) {
 		} else {
 			t.s.logf("table@remove removed @%d", fd.Num)
 		}
-		if t.evictRemoved && t.blockCache != nil {
+		// Blocks cached under a file number that is about to be reused (see
+		// below) would be served for the next table that gets the number,
+		// so they are evicted regardless of evictRemoved.
+		if t.blockCache != nil && (t.evictRemoved || t.s.nextFileNum() == fd.Num+1) {
 			t.blockCache.EvictNS(uint64(fd.Num))
 		}
 		// Try to reuse file num, useful for discarded transaction.
